@@ -143,7 +143,7 @@ def random_schedule(rng, front, n_events, weights=None, junk=None, max_ints=10, 
     w = dict(Attach=4, AttachDup=1, Detach=2, RecvInterest=8, IntValFinish=5, Reply=4, Tick=3, Shutdown=0.15, Connect=2, RecvJunk=1)
     if weights:
         w.update(weights)
-    verdicts = ['PASS', 'PASS', 'FAIL', 'TIMEOUT', 'SILENCE', 'BYPASS'] if front == 'v2' else ['T', 'T', 'F']
+    verdicts = ['PASS', 'PASS', 'FAIL', 'TIMEOUT', 'SILENCE', 'BYPASS', 'RAISE'] if front == 'v2' else ['T', 'T', 'F', 'RAISE']
     names = names or NAMES
     run = fibkit.FibRun(front)
     evs = []
